@@ -49,12 +49,13 @@ func runC05(o opts) error {
 		}
 	} else {
 		for _, fam := range strings.Split(o.extra, "+") { // families can be combined: state+ex
-			rng := rand.New(rand.NewSource(o.seed))
+			famSeed := o.seed
 			if strings.HasPrefix(fam, "state:") { // state:k = k-th batch of the state family
 				k, _ := strconv.Atoi(fam[6:])
-				rng = rand.New(rand.NewSource(o.seed*1000 + int64(k)))
+				famSeed = o.seed*1000 + int64(k)
 				fam = "state"
 			}
+			rng := rand.New(rand.NewSource(famSeed))
 			switch fam {
 			case "state":
 				scns = append(scns, c05.Fixed()...)
@@ -69,7 +70,7 @@ func runC05(o opts) error {
 					scns = append(scns, c05.GenFuzz(rng, fb))
 				}
 				// resize histories on the alternate screen (own generator so that the scenarios above keep their seeds)
-				rng2 := rand.New(rand.NewSource(o.seed*7919 + 17))
+				rng2 := rand.New(rand.NewSource(famSeed*7919 + 17))
 				for i := 0; i < ng/2; i++ {
 					scns = append(scns, c05.GenAltResize(rng2))
 				}
